@@ -32,11 +32,12 @@ RULE = ('one evaluation = one simulated run of a sampled workload (victim proces
         'finish and a fresh process opens the directory. Plus real-SIGKILL child runs. Non-trivial = the kill fired inside an '
         'operation; distinct = SHA-256 of the seam event log')
 RULE += ' ' + 'One cache workload in seven uses a Disk subclass that names each value file after its key (a refusal with FileExistsError counts as a no-op).'
+RULE += ' ' + 'One deque scenario in eight works on a deque of 1001-1100 items (reverse / rotate / extend); after a kill inside reverse a later process reverses twice and must get the same deque.'
 ASSUMPTIONS = ['in-process kill: after the kill instant no task of the victim has any further effect and its descriptors are closed '
                '(what the OS does for SIGKILL); power loss is not modelled',
                'real-kill mode: single victim, kill instant derived from the seed (seam step or progress-handler tick)']
 PROBES = ('kill_mid_file_write', 'kill_torn_chunk', 'kill_in_txn', 'kill_between_commit_and_unlink', 'realkill', 'kill_inside_first_open',
-          'debris_unknown_file', 'bulk_partial', 'keynamed_refusal')
+          'debris_unknown_file', 'bulk_partial', 'keynamed_refusal', 'deque_over_1000')
 TECHNIQUE = 'deterministic simulation with crash injection: kill point enumerated over all seam events of sampled workloads; post-crash state checked by linearizability with the interrupted operation pending'
 LEVEL_TEXT = ('fault enumeration: workloads are sampled by seed, but within a workload every kill point at seam granularity is run '
               '(thorough tier), so for that workload the crash-point quantifier is decided completely at that granularity; the '
@@ -104,6 +105,12 @@ def gen_case(seed, tier):
                 op['n'] = rng.choice((1, 2, 3))
             prog.append(op)
         progs = {'v': prog}
+        if rng.random() < 0.12:
+            # a deque of more than a thousand items (beyond any in-memory shortcut or page size) reversed / rotated / extended
+            cfg['maxlen'] = None
+            cfg['deque_prefill'] = rng.choice((1001, 1030, 1100))
+            progs = {'v': [rng.choice(({'op': 'dreverse'}, {'op': 'dreverse'}, {'op': 'drotate', 'n': rng.choice((1, -2, 500))},
+                                       {'op': 'dextend', 'vs': [c05.uniq_value(rng, 0, b, big_n) for b in range(3)]}))]}
     elif scen == 'bulk':
         cfg['target'] = 'cache'
         cfg['bulk_n'] = rng.choice((120, 230, 250))
@@ -341,8 +348,8 @@ def _keys_in(op):
         yield op['k']
 
 
-def deque_model(prog, maxlen):
-    d = collections.deque(maxlen=maxlen)
+def deque_model(prog, maxlen, init=0):
+    d = collections.deque((fp(i) for i in range(init)), maxlen=maxlen)
     for op in prog:
         name = op['op']
         try:
@@ -395,10 +402,29 @@ def run_deque(case):
         except Exception as exc:  # noqa
             violations.append({'rule': 'C07/present-key-unreadable', 'sig': type(exc).__name__, 'detail': str(exc)[:100]})
             out['final'] = None
+        if out['final'] is not None and any(op['op'] == 'dreverse' for op in case['progs']['v']):
+            # whatever the dead process left must not get into a later reversal: twice reversed is the same deque
+            try:
+                dq.reverse()
+                once = [fp(x) for x in dq]
+                dq.reverse()
+                twice = [fp(x) for x in dq]
+                if once != out['final'][::-1] or twice != out['final']:
+                    violations.append({'rule': 'C07/later-operation-affected', 'sig': 'reverse-after-kill',
+                                       'detail': 'a later process reverses the deque twice: %d items, then %d, then %d' % (
+                                           len(out['final']), len(once), len(twice))})
+            except Exception as exc:  # noqa
+                violations.append({'rule': 'C07/later-operation-affected', 'sig': type(exc).__name__, 'detail': str(exc)[:100]})
         finish_checks(fresh, violations)
         fresh.close()
 
-    out = conc.run_and_inspect(case, inspect)
+    npre = case['cfg'].get('deque_prefill', 0)
+    prepare = None
+    if npre:
+        def prepare(world, main):
+            main.extend(range(npre))
+        probes['deque_over_1000'] = 1
+    out = conc.run_and_inspect(case, inspect, prepare=prepare)
     violations = out['violations']
     base = {'digest': out.get('digest'), 'steps': out.get('steps', 0), 'switches': out.get('switches', 0),
             'fired': out.get('fired', {}), 'virtual_s': out.get('virtual_s', 0.0), 'picks': out.get('picks')}
@@ -410,14 +436,14 @@ def run_deque(case):
     done = [h for h in out['history'] if h['ret'] is not None]
     pending = [h for h in out['history'] if h['ret'] is None]
     n = len(done)
-    cands = [deque_model(prog[:n], case['cfg'].get('maxlen'))]
+    cands = [deque_model(prog[:n], case['cfg'].get('maxlen'), npre)]
     if pending:
-        cands.append(deque_model(prog[:n + 1], case['cfg'].get('maxlen')))
+        cands.append(deque_model(prog[:n + 1], case['cfg'].get('maxlen'), npre))
     if out.get('final') is not None and out['final'] not in cands and pending:
         pop = pending[0]['op']
         if pop['op'] in ('dextend', 'dextendleft', 'diadd'):
             # a bulk insertion interrupted after some of its items: the items so far are there, the rest is not
-            partial = [deque_model(prog[:n] + [dict(pop, vs=pop['vs'][:m])], case['cfg'].get('maxlen')) for m in range(1, len(pop['vs']))]
+            partial = [deque_model(prog[:n] + [dict(pop, vs=pop['vs'][:m])], case['cfg'].get('maxlen'), npre) for m in range(1, len(pop['vs']))]
             if out['final'] in partial:
                 violations.append({'rule': 'C07/post-crash-state', 'sig': 'bulk-insertion-partly-applied',
                                    'detail': '%s interrupted by the kill left %s; before %s, complete %s' % (pop['op'], out['final'], cands[0], cands[-1])})
@@ -889,5 +915,10 @@ def _victim_seams(case):
             for i in range(cfg['bulk_n']):
                 main.set(i, val, expire=1 if i % 2 else 2, tag='t1')
             world.sim.advance(10)
+    if case['cfg'].get('deque_prefill'):
+        npre = case['cfg']['deque_prefill']
+
+        def prepare(world, main):
+            main.extend(range(npre))
     conc.run_and_inspect(copy.deepcopy(case), inspect, prepare=prepare)
     return counts
